@@ -32,25 +32,32 @@ def rule_TR1(rep, prog, ex, k):
                 continue
             rep.saw(fn)
             o = t.origin
-            seen.add(o)
-            if o == "_dispatch_once_gate_tryenter":
-                ok = t.kind == "cas" and t.expected is not None and t.expected.value() == k["DLOCK_ONCE_UNLOCKED"] and \
-                    any("lock_value_for_self" in (s or "") or "tid" in (s or "") for s, m in t.new.ors)
-                rep.require(rid, ok, t.where, o, "tryenter-shape", "_dispatch_once_gate_tryenter must CAS from exactly DLOCK_ONCE_UNLOCKED to the caller's "
-                            "lock value (found expected=%r new=%r): two callers could both win" % (t.expected, t.new), sample={"site": o, "expected": 0})
-            elif o == "_dispatch_once_mark_done":
-                ok = t.kind == "rmw" and t.rmw == "xchg" and t.operand is not None and t.operand.value() == DONE and ord_has_release(t.order)
-                rep.require(rid, ok, t.where, o, "mark-done-shape", "_dispatch_once_mark_done must exchange DLOCK_ONCE_DONE with release (found %s %r %s)"
-                            % (t.rmw, t.operand, t.order), sample={"site": o, "xchg": "DONE", "order": t.order})
-            elif o == "_dispatch_once_wait":
-                ok = t.kind == "cas-loop" and t.sets(WAITERS) and t.preserves(ALL1 & ~WAITERS) and t.old.uhi < DONE
+            # roles are recognised by the SHAPE of the write, not by the name of the function it sits in (a helper merged into its caller or renamed
+            # keeps its shape); a write of any other shape is a violation wherever it is
+            is_try = t.kind == "cas" and t.expected is not None and t.expected.value() == k["DLOCK_ONCE_UNLOCKED"]
+            is_done = t.kind == "rmw" and t.rmw == "xchg" and t.operand is not None and t.operand.value() == DONE
+            is_wait = t.kind == "cas-loop" and t.sets(WAITERS)
+            if is_try or o == "_dispatch_once_gate_tryenter":
+                seen.add("tryenter")
+                ok = is_try and any("lock_value_for_self" in (s_ or "") or "tid" in (s_ or "") for s_, m in t.new.ors)
+                rep.require(rid, ok, t.where, o, "tryenter-shape", "the try-enter of the once gate (%s) must CAS from exactly DLOCK_ONCE_UNLOCKED to the caller's "
+                            "lock value (found expected=%r new=%r): two callers could both win" % (o, t.expected, t.new), sample={"site": o, "expected": 0})
+            elif is_done or o == "_dispatch_once_mark_done":
+                seen.add("mark_done")
+                ok = is_done and ord_has_release(t.order)
+                rep.require(rid, ok, t.where, o, "mark-done-shape", "marking the once gate done (%s) must exchange DLOCK_ONCE_DONE with release (found %s %r %s)"
+                            % (o, t.rmw, t.operand, t.order), sample={"site": o, "xchg": "DONE", "order": t.order})
+            elif is_wait or o == "_dispatch_once_wait":
+                seen.add("wait")
+                ok = is_wait and t.preserves(ALL1 & ~WAITERS) and t.old.uhi < DONE
                 rep.require(rid, ok, t.where, o, "wait-cas-shape", "_dispatch_once_wait may only OR the waiters bit into a gate that is not DONE "
                             "(old range up to %#x, new %r)" % (t.old.uhi, t.new), sample={"site": o, "new": repr(t.new)})
             else:
-                rep.classified(rid, o, False, t.where, o, "unclassified-once-writer:%s" % o, "%s writes dgo_once but is not a classified writer" % o)
-    for need in ("_dispatch_once_gate_tryenter", "_dispatch_once_mark_done", "_dispatch_once_wait"):
+                rep.violation(rid, t.where, o, "unclassified-once-writer:%s" % o, "%s writes dgo_once with a %s that is none of the three legitimate transitions "
+                              "(try-enter CAS, waiters-bit CAS, DONE exchange)" % (o, t.kind))
+    for need in ("tryenter", "mark_done", "wait"):
         if need not in seen:
-            rep.unknown(rid, "anchor vanished: no dgo_once write in %s" % need)
+            rep.unknown(rid, "anchor vanished: no %s transition of dgo_once found" % need)
 
 
 def rule_MP2(rep, prog, k):
